@@ -859,6 +859,14 @@ class C12(SimSpec):
             scen["endgame_kill"] = True
             scen["faults"] = {"node_kill": 3, "node_kill_w": 0.0}
             scen["fault_kind"] = "endgame_node_kill"
+        elif i % 8 == 2:
+            # node loss, then resubmit-jobs (the missing jobs and their dependents), then node loss again during the resubmission:
+            # the accounting clauses hold for the resubmission as for the first submission
+            scen["faults"] = {"node_kill": 1, "node_kill_w": rng.choice([0.03, 0.1])}
+            scen["resubmit"] = {"rounds": [{"failed": True, "missing": True, "successful": False}], "faults": {"node_kill": 1, "node_kill_w": rng.choice([0.03, 0.1])}}
+            for g in scen["groups"]:
+                g["batch"] = rng.randint(1, 2)
+            scen["fault_kind"] = "node_kill_resubmit_node_kill"
         elif i % 8 == 6:
             # collection race with node loss: rounds (nodes' own and the user's) collect the result files of batches that are
             # still running jobs, with long delays between a collector's read and its delete of a node file, and one node dies
@@ -875,6 +883,9 @@ class C12(SimSpec):
     def tasks(self, tier, seed):
         out = SimSpec.tasks(self, tier, seed)
         # retries of a failing sbatch take 6 x 10 virtual seconds: nothing to pay in wall time
+        for t in out:
+            if t["args"]["scen"].get("resubmit"):
+                t["args"]["cls"] = "sim.resub:ResubSim"
         return out
 
     def second_phase(self, tier, seed, tasks, results):
